@@ -6,7 +6,7 @@ exhaustively for short lengths and sampled (seeded) for longer ones; scripts der
 TLC behaviours (-simulate and counterexamples) are added by jobcheck.py."""
 import itertools, json, random
 
-SIGS = ["TERM", "INT", "HUP", "USR1", "USR2", "QUIT", "KILL"]
+SIGS = ["TERM", "INT", "HUP", "USR1", "USR2", "QUIT", "23", "29", "99999", "0", "KILL"]
 GRACES = [0, 20, 30]
 PLAIN = ["start", "stop", "restart", "try_restart", "delete", "delete_now", "to_wait", "run",
          "signal"]
@@ -31,7 +31,7 @@ KIDS_FAULT = [kid(fail=True), kid(kill_fail=True), kid(sig_fail=True),
 def step(at, op, rng=None, **kw):
     s = dict(at=at, op=op)
     if op in GRACEFUL:
-        s["sig"] = kw.pop("sig", None) or (rng.choice(SIGS[:6]) if rng else "TERM")
+        s["sig"] = kw.pop("sig", None) or (rng.choice(SIGS[:10]) if rng else "TERM")
         s["grace"] = kw.pop("grace", None)
         if s["grace"] is None:
             s["grace"] = rng.choice(GRACES) if rng else 20
